@@ -21,6 +21,10 @@ inline std::vector<GpShape> gpShapes(int level) {
         v.push_back({rh, nY, wmul * rh + (wmul == 7 ? 1 : 0), 0, 0});
         if (level >= 1 || (wmul == 4 && nY == 3)) v.push_back({rh, nY, wmul * rh + (wmul == 7 ? 1 : 0), -17, 49});
       }
+  // tall and narrow areas: more density bins vertically than horizontally (appended last so that indices of the others are stable)
+  v.push_back({2, 12, 8, 0, 0});
+  v.push_back({2, 9, 9, 5, -30});
+  if (level >= 1) v.push_back({4, 7, 16, -17, 49});
   return v;
 }
 
@@ -161,7 +165,9 @@ inline std::vector<Spec> gpRepresentatives() {
   std::vector<Spec> v;
   auto shapes = gpShapes(1);
   auto sets = gpCellSets(1);
-  v.push_back(gpSpec(shapes[2], sets[3], 1, 3, 1));
+  // shapes[6] = rh 2, 2 rows, 15 wide; [9] = 4 rows, 8 wide at (-17,49); [5] = 2 rows, 8 wide at (-17,49); [14] = rh 4, 1 row, 29 wide.
+  // Every one of them can be legalized (enough rows for the tallest cell, enough width).
+  v.push_back(gpSpec(shapes[6], sets[3], 1, 3, 1));
   v.push_back(gpSpec(shapes[9], sets[2], 2, 2, 0));
   v.push_back(gpSpec(shapes[5], sets[1], 3, 1, 2));
   v.push_back(gpSpec(shapes[14], sets[4], 4, 4, 1));
